@@ -1,10 +1,48 @@
-# C09 registry entry (M is injected by lib/props.py) - placeholder texts are completed after calibration
+# C09 registry entry (M is injected by lib/props.py)
 PROP = dict(
     title="Transform builders act as documented; in-place forms pre-multiply",
-    rule="tbd",
-    assumptions=[],
-    technique="tbd",
-    level_text="tbd",
-    level_note="tbd",
+    rule=("Every case is a pure function of (seed, sub-check, index); the index selects the function/overload and the input class, the "
+          "counter-based PRNG the values. (1) set* builders (12 overloads of setTranslation/setScale/setShear on Matrix22/33/44, "
+          "Matrix22/33::setRotation, Matrix44::setAxisAngle, Matrix44::setEulerAngles) are run on a matrix pre-filled with garbage; every "
+          "entry is compared with the documented matrix written out in the monitor from the doc comments ('shear a for each b coord. by f' "
+          "= entry [b][a]), exactly for translation/scale/shear and within C*eps of cosl/sinl resp. the Rodrigues formula in long double for "
+          "rotations; the matrix is applied to a point through operator*(Vec,Matrix): p+t and per-axis scaling must be bit-exact, shear and "
+          "rotations within C*eps*sum|terms| (exact on integer lattices); rotations must be orthonormal with det +1 and right-handed; "
+          "translation() must return row N-1 of an arbitrary matrix. Parameter classes: integer lattice, generic, wide exponents, zeros, "
+          "identity parameters, a single non-zero parameter; 8 angle classes (generic, many periods up to 1e6/1e12, huge up to 1e9/1e15, "
+          "k*pi/2 +- 1e-j, k*pi/2 rounded, k*pi/2 +- few ulps, tiny/zero, +-100); 9 axis classes (lengths 1e-30..1e18 float / 1e30 double, "
+          "axis aligned, mixed magnitudes, lattice, the lengthTiny threshold). (2) the 12 in-place forms (Matrix33/44 translate, scale, "
+          "shear with every overload, Matrix44::rotate, Matrix22::scale; Matrix22/33::rotate) are run on 8 classes of CURRENT matrix (integer "
+          "lattice, dense non-affine, affine, wide exponents, sparse, identity, identity with a dense last column, dense with one non-zero "
+          "parameter) and compared with set*(..)*M (M*setRotation for Matrix22/33::rotate) evaluated by loops in long double and by the "
+          "library's operator*: bit-exact on lattices and for zero angles, within 16*(eps*sum|terms| + n*denorm_min) otherwise (theory for any evaluation order: 2; worst observed 1.87; the result was bit-identical to the library product in every case); the rotate forms also against a "
+          "Rodrigues reference. (3) frame builders on direction pairs from 16 classes (generic, nearly parallel/antiparallel 1e-1..1e-10, "
+          "exactly perpendicular, axis aligned, lengths 2^-12..2^12, obtuse, exactly (anti)parallel, zero first/second/both, parallel along "
+          "a coordinate axis, identical): orthonormality, handedness (row0 x row1 = row2), determinant, the documented axes and origin, the "
+          "exact homogeneous row/column. 'Nearly parallel' is fixed as sin(angle) < sqrt(eps) (sqrt(eps_float) for nextFrame, which uses "
+          "acosf); such pairs are executed, counted as skipped and not judged; above it tolerances are C*eps/sin(angle). Zero and exactly "
+          "parallel pairs are judged for alignZAxisWithTargetDir and rotationMatrixWithUpDir only. A case is distinct by the hash of its "
+          "input bits (capped by the framework: a lower bound); every judged case is non-trivial."),
+    assumptions=["long double (x87, 64-bit significand) sinl/cosl/sqrtl of glibc are accurate to 1 ulp of long double; it is the reference "
+                 "for float AND double (11 guard bits against the eps-scaled tolerances of several eps)",
+                 "element types float and double with matching parameter type (S == T); mixed S/T instantiations are not executed",
+                 "finite inputs; magnitudes chosen so that no product overflows; underflow is accounted for by an absolute floor of n*denorm_min",
+                 "rotation conventions as read from ImathMatrix.h: row vectors, counter-clockwise / right-hand rule, setEulerAngles = Rx*Ry*Rz",
+                 "float axes with |axis|^2 > FLT_MAX (length() = inf) and direction arguments outside 2^-12..2^12 are outside the quantifier "
+                 "(executed for the axis case, never judged)",
+                 "firstFrame is never called with coincident points (it is noexcept and calls normalizeExc: std::terminate)",
+                 "gcc on x86-64 without FMA contraction (bit-identity with the library product is recorded, the verdict uses the eps bound)"],
+    technique=("class-directed randomized execution of the real header code with independent oracles (documented matrices written out from "
+               "the doc comments, Rodrigues formula and index-loop matrix products in long double, exact integer-lattice equality, "
+               "cross-check against the library's own operator*); ASan/UBSan on a 5 % sample"),
+    level_text=("All 12 set* overloads, 2+2 rotation builders, 12 in-place forms and 7 frame builders are executed for float and double on "
+                "2.4*10^7 (quick) / 2.4*10^9 (thorough) judged executions per run, every boundary class of the quantifier is produced "
+                "deterministically (required classes make a run inconclusive otherwise). Structural errors (wrong slot, wrong row, wrong "
+                "component, wrong multiplication side, wrong sign, stale entry, wrong handedness) are hard mismatches on integer lattices / "
+                "O(1) errors against tolerances of a few eps, and 20 such mutations are all detected by the quick tier. The input spaces "
+                "are continuous, so this remains sampling."),
+    level_note=("sampled, not exhaustive; an error below the calibrated bounds (4..160 eps, each >= 8x the worst ratio observed on >= 10^7 cases and written to the evidence on every run; scaled "
+                "by 1/sin(angle) for cross-product based frames) is invisible outside the exact lattice checks; nearly parallel direction pairs, extreme direction lengths and "
+                "S != T instantiations are not judged"),
     monitors=[M("c09_transform", ["c09_set.cpp", "c09_inplace.cpp", "c09_frames.cpp"], san_scale=0.05, san_scale_thorough=0.02)],
 )
